@@ -1,0 +1,14 @@
+//go:build verif
+
+// Contracts checked by /verif (gocv). Comment-only; compiled only with -tags verif.
+
+package binary
+
+//@ func NewVectorOperator
+//@   requires matching != nil
+//@   ensures[C08] err-is-unsupported: result1 != nil ==> (result1.isNS || result1.isNI) && result0 == nil
+//@   ensures ok-nonnil: result1 == nil ==> result0 != nil
+
+//@ func NewScalar
+//@   ensures[C08] err-is-unsupported: result1 != nil ==> (result1.isNS || result1.isNI) && result0 == nil
+//@   ensures ok-nonnil: result1 == nil ==> result0 != nil
